@@ -29,12 +29,14 @@ AncQ == WA("anc", {"sub"}, {"default", "cwdsub"}, {"absent"}, {"none"}, AncClass
 AncT == WA("anc", {"root", "sub", "w_colonsp"}, {"default", "cwdsub"}, {"absent"}, {"none", "several"}, AncClasses)
 \* --config strings whose lexical cleaning differs from what the kernel resolves, with something present / absent
 \* at both candidate places
+\* argument shapes other than one package
+ArgsQ == W("args", {"sub", "a_none", "a_two"}, {"default", "rel"}, {"absent", "valid", "empty"})
 SymQ == W("sym", {"sub", "w_colonsp"}, {"linkup", "linkupabs", "linkdir", "dslash"}, {"absent", "valid", "dangling"})
 SymT == W("sym", {"root", "sub", "w_colonsp"}, {"linkup", "linkupabs", "linkdir", "dslash"}, AllInits)
 EnvT == WE("env", {"root", "sub", "w_colonsp"}, {"default", "rel", "abs", "cwdsub", "after"}, {"absent", "dangling"}, AllEnvs)
 
 \* main world: every --config class x every initial content, both Go packages and two odd strings
-Main == W("main", {"root", "sub", "w_colonsp", "w_brace"}, AllCfgs \ {"linkup", "linkupabs", "linkdir", "dslash"}, AllInits)
+Main == W("main", {"root", "sub", "w_colonsp", "w_brace", "a_none", "a_two"}, AllCfgs \ {"linkup", "linkupabs", "linkdir", "dslash"}, AllInits)
 MainCfgs == AllCfgs \ {"linkup", "linkupabs", "linkdir", "dslash"}      \* those four: world "sym"
 MainQ == W("main", {"sub", "w_colonsp"}, MainCfgs \ {"reldot", "eqform"}, AllInits)     \* the two spelling variants: thorough only
 
@@ -58,13 +60,16 @@ Odd11 == {"w_yes", "w_float", "w_crlf", "w_nbsp"}
 Odd12 == {"w_ls", "w_del", "w_pipes", "w_tpl"}
 Odd13 == {"w_leadnl", "w_tabml", "w_lsml", "w_nlonly"}
 Odd14 == {"w_dslash", "w_dotrel", "w_upper", "w_trailsl"}
+\* strings that are words of the config schema, and very long ones
+Odd15 == {"w_kall", "w_kpackages", "w_kconfig", "w_ktd"}
+Odd16 == {"w_kinterfaces", "w_kConfig", "w_longsp", "w_xlong"}
 StrWorld(id, s) == W(id, s \cup {"sub"}, {"rel"}, {"absent"})
 StrWorlds == {StrWorld("s1", Odd1), StrWorld("s2", Odd2), StrWorld("s3", Odd3), StrWorld("s4", Odd4),
               StrWorld("s5", Odd5), StrWorld("s6", Odd6), StrWorld("s7", Odd7), StrWorld("s8", Odd8),
-              StrWorld("s9", Odd9), StrWorld("s10", Odd10), StrWorld("s11", Odd11), StrWorld("s12", Odd12), StrWorld("s13", Odd13), StrWorld("s14", Odd14)}
+              StrWorld("s9", Odd9), StrWorld("s10", Odd10), StrWorld("s11", Odd11), StrWorld("s12", Odd12), StrWorld("s13", Odd13), StrWorld("s14", Odd14), StrWorld("s15", Odd15), StrWorld("s16", Odd16)}
 
 OddModsQ == {"m_true", "m_null", "m_int", "m_float", "m_yes", "m_date", "m_punct", "m_hex"}
-MCWorldsQuick == {MainQ, EnvQ, AncQ, SymQ} \cup {OddWorld(m) : m \in OddModsQ} \cup StrWorlds
+MCWorldsQuick == {MainQ, EnvQ, AncQ, SymQ, ArgsQ} \cup {OddWorld(m) : m \in OddModsQ} \cup StrWorlds
 \* thorough: the same alphabets in more --config classes and initial contents
 OddWorldT(m) == WE(m, {"root", "sub"}, {"default", "rel", "abs", "cwdsub", "after"}, {"absent", "valid"}, {"none", "several"})
 StrWorldT(w) == W(w.id, w.pkgs, {"default", "rel", "abs", "subdir", "cwdsub", "eqform"}, {"absent", "valid", "empty", "twin", "link"})
